@@ -1241,6 +1241,18 @@ def build_kernels(D):
               lambda a, e: raw(_resh.column_stack_dense(a[0])),
               lambda c, e: "vD (G_column_stack_dense %s)" % c[0], "D"))
 
+    _mm = _m("matmul")
+    K.append(("matmul_csr", ["CSR", "CSR"], scal,
+              lambda a, e: raw(_mm.matmul_csr(a[0], a[1], complex(*e[0]))),
+              lambda c, e: "vO vC (G_matmul_csr %s %s %s)" % (c[0], c[1], cG(e[0])), "optC"))
+    K.append(("matmul_csr_dense_dense", ["CSR", "Dense"], scal,
+              lambda a, e: raw(_mm.matmul_csr_dense_dense(a[0], a[1], complex(*e[0]))),
+              lambda c, e: "vO vD (G_matmul_csr_dense %s %s %s None)" % (c[0], c[1], cG(e[0])),
+              "optD"))
+    K.append(("matmul_csr_dense_dense[out]", ["CSR", "Dense", "Dense"], scal,
+              lambda a, e: raw(_mm.matmul_csr_dense_dense(a[0], a[1], complex(*e[0]), a[2].copy())),
+              lambda c, e: "vO vD (G_matmul_csr_dense %s %s %s (Some %s))" % (
+                  c[0], c[1], cG(e[0]), c[2]), "optD"))
     _kron = _m("kron")
     K.append(("kron_csr", ["CSR", "CSR"], None,
               lambda a, e: raw(_kron.kron_csr(a[0], a[1])),
@@ -1281,7 +1293,8 @@ def correspondence(ctx, D, rng, ncases):
     dk = dist.setdefault("corr_kernel", {})
     dv = dist.setdefault("corr_variant", {})
     weight = {"add_csr": 6, "isequal_dia": 3, "reshape_csr": 6, "reshape_dense": 2,
-              "column_stack_csr": 2, "kron_csr": 3, "csr.from_dense": 2, "csr.from_dia": 2, "add_dense": 2,
+              "column_stack_csr": 2, "kron_csr": 3, "matmul_csr": 6,
+              "matmul_csr_dense_dense": 3, "matmul_csr_dense_dense[out]": 4, "csr.from_dense": 2, "csr.from_dia": 2, "add_dense": 2,
               "dia.from_dense[auto_tidyup=False]": 2}
     K = [k for k in K for _ in range(weight.get(k[0], 1))]
     for it in range(ncases):
@@ -1295,6 +1308,11 @@ def correspondence(ctx, D, rng, ncases):
         malformed = False
         if name == "kron_csr":
             shapes = [(rng.randint(1, 4), rng.randint(1, 4)), (rng.randint(1, 4), rng.randint(1, 4))]
+        elif name.startswith("matmul_csr"):
+            k = rng.choice([1, 1, 2, 3, 4, 6])
+            inner = shape[1] + (1 if rng.random() < 0.08 else 0)
+            shapes = [shape, (inner, k), (shape[0] + (1 if rng.random() < 0.05 else 0), k)][:len(types)]
+            malformed = inner != shape[1] or (len(types) == 3 and shapes[2][0] != shape[0])
         elif len(types) == 2 and rng.random() < 0.12:
             s2 = list(shape)
             s2[rng.randrange(2)] += 1
